@@ -125,6 +125,24 @@ def run():
                     problems.append(f"{s0}.{name}({x}): model raises {exc}, CPython {pexc}")
                 elif exc is None and _eval_set(ex.written, ex) != py:
                     problems.append(f"{s0}.{name}({x}): model {_eval_set(ex.written, ex)}, CPython {py}")
+    # ---- dict.setdefault
+    for d0 in ({}, {1: 5}, {1: 5, 2: 6}):
+        for k in (1, 2, 3):
+            n += 1
+            ex = _Ex()
+            dom, val = z3.K(z3.IntSort(), z3.BoolVal(False)), z3.K(z3.IntSort(), z3.IntVal(-9))
+            for a, b in d0.items():
+                dom, val = z3.Store(dom, a, True), z3.Store(val, a, b)
+            r = builtins_model.method(ex, VDict(dom, val, TInt, TInt), "setdefault", [k, 7], {}, _node)
+            py = dict(d0)
+            pr = py.setdefault(k, 7)
+            sv = z3.Solver()
+            sv.check()
+            m = sv.model()
+            got_r = m.eval(TInt.unwrap(r), model_completion=True).as_long()
+            got_d = {u: m.eval(ex.written.val[u], model_completion=True).as_long() for u in range(5) if z3.is_true(m.eval(ex.written.dom[u], model_completion=True))}
+            if got_r != pr or got_d != py:
+                problems.append(f"{d0}.setdefault({k}, 7): model returns {got_r} / {got_d}, CPython {pr} / {py}")
     # ---- lists / deque
     lists = [list(c) for k in range(4) for c in itertools.product(range(3), repeat=k)]
     for l0 in lists:
